@@ -117,7 +117,7 @@ class C33Engine(Engine):
         _setup()
 
     def n_runs(self, tier):
-        return {"quick": 1500, "thorough": 150000}[tier]
+        return {"quick": 1500, "thorough": 250000}[tier]
 
     def rule(self):
         return ("Each run is a chain of 1-8 API calls (date() with each method, the named methods, preprocess_ts with "
@@ -146,7 +146,8 @@ class C33Engine(Engine):
 
     def expected_probes(self, tier):
         return ["probe.chain_of_3_recorded", "probe.record_off", "probe.clock_jump_during_call",
-                "probe.backwards_elapsed", "probe.preprocess_then_date", "probe.named_method"]
+                "probe.backwards_elapsed", "probe.preprocess_then_date", "probe.named_method",
+                "probe.exact_repeat_of_previous_call"]
 
     def run(self, tape):
         M = _setup()
@@ -164,6 +165,7 @@ class C33Engine(Engine):
         results = [ts]
         n_recorded = 0
         last_kind = None
+        last_call = None
         try:
             n_ops = 1 + tape.choose("n_ops", 8)
             for opi in range(n_ops):
@@ -229,6 +231,11 @@ class C33Engine(Engine):
                             call_kw["method"] = method  # date(method=None) -> variational_gamma
                         else:
                             stats["probe.date_default_method"] += 1
+                # re-running the previous step unchanged is what pipelines do after a failure downstream
+                if last_call is not None and tape.chance("repeat_exact", 0.15):
+                    kind, fn, call_kw, passed, command, recording = last_call
+                    stats["probe.exact_repeat_of_previous_call"] += 1
+                last_call = (kind, fn, call_kw, passed, command, recording)
                 # a clock step during the call
                 clk.jumped = False
                 if tape.chance("jump_during", 0.3):
@@ -309,11 +316,13 @@ class C33Engine(Engine):
         if not isinstance(el, (int, float)) or isinstance(el, bool) or el != el:
             return violation("bad-elapsed-time", site, f"{command}: resources.elapsed_time={el!r}")
         if reads:
-            ok = any(el == r - reads[0] for r in reads[1:]) or (len(reads) == 1 and el == 0)
+            # any (later reading) - (earlier reading) of this call: which read is the start is an implementation detail
+            ok = any(el == reads[j] - reads[i] for i in range(len(reads)) for j in range(i + 1, len(reads))) or (
+                len(reads) == 1 and el == 0)
             if not ok:
                 return violation("elapsed-time-not-from-clock", site,
-                                 f"{command}: elapsed_time={el!r} is not (a later clock reading) - (the first reading "
-                                 f"of the call); readings: {reads[:3]}...{reads[-2:]}")
+                                 f"{command}: elapsed_time={el!r} is not the difference of two clock readings made "
+                                 f"during the call; readings: {reads[:3]}...{reads[-2:]}")
             if el < 0:
                 stats["probe.backwards_elapsed"] += 1
         stats["records_validated"] += 1
@@ -345,7 +354,7 @@ class C34Engine(Engine):
         _setup()
 
     def n_runs(self, tier):
-        return {"quick": 1200, "thorough": 120000}[tier]
+        return {"quick": 1200, "thorough": 80000}[tier]
 
     def rule(self):
         return ("Each run: a real scratch directory with 1-2 generated .trees inputs and a history of 2-7 operations: "
